@@ -198,6 +198,24 @@ def run(rep, tier, seed, keep=False):
             i = len(events)
             events.append(g.event(i, ast, data, res, log=log, eager=eager, mode='log'))
             desc[i] = (text, data, note, res, log)
+        # an ordering is sorted once: traversing the same ordering object again (bound by let, or counted by assert before it is
+        # used) runs no key selector again. The selectors' log of ONE traversal is what the known finding C11/tick-count/orderBy
+        # pins down; the logs of these forms are compared with it
+        nre = 0
+        for d in ([3, 1, 2], [1], [2, 2, 1, 0], [5, 4, 3, 2, 1, 0]):
+            for ordering in ('$.orderBy(tick(1, $))', '$.orderByDescending(tick(1, $))', '$.orderBy(tick(1, $ mod 2)).thenBy(tick(2, $))',
+                             '$.orderBy(tick(1, $ mod 2)).thenByDescending(tick(2, $))'):
+                one, log1 = real.run(ordering, d)
+                for form in ('let(o => %s) -> [$o.first(), $o.last()]', 'let(o => %s) -> [$o.toList(), $o.toList()]', '%%s.assert($.count() = %d).first()' % len(d),
+                             'let(o => %s) -> [$o.count(), $o.toList()]', '[%s].select([$.first(), $.toList()])'):
+                    text = form % ordering
+                    res, log2 = real.run(text, d)
+                    nre += 1
+                    rep.evaluations += 1
+                    if res[0] == 'e' or [t[0] for t in log2] != [t[0] for t in log1]:
+                        rep.violation('C11/retraversal/orderBy', '%s on %r: result %r, the key selectors ran %s; one traversal of the same ordering (%s) runs them %s' % (
+                            text, d, res, [t[0] for t in log2], ordering, [t[0] for t in log1]), {'text': text, 'data': d})
+        rep.extra['ordering_retraversals_checked'] = nre
         rej, skipped, skipped_ids = g.validate(rep, wd, events, 'Trace_Eval/C11')
         for eid, clause in rej:
             text, data, note, res, log = desc[eid]
